@@ -28,3 +28,32 @@ Definition k1_bad (cases : list c02case) : list (N * N) :=
     | Some [t] => if expr_eqb t (snd (snd ic)) then [] else [(fst ic, 1%N)]
     | _ => [(fst ic, 2%N)]
     end) (indexed cases).
+
+(* ---- statements: the operations issued for a whole function body, replayed on the block machine ---- *)
+Fixpoint stmt_eqb (a b : stmt) {struct a} : bool :=
+  match a, b with
+  | SAssign l r, SAssign l' r' => expr_eqb l l' && expr_eqb r r'
+  | SExpr e, SExpr e' => expr_eqb e e'
+  | SReturn es, SReturn es' => exprs_eqb es es'
+  | SIf c t h e, SIf c' t' h' e' => expr_eqb c c' && stmts_eqb t t' && Bool.eqb h h' && stmts_eqb e e'
+  | SFor c b0, SFor c' b' => expr_eqb c c' && stmts_eqb b0 b'
+  | SBlock b0, SBlock b' => stmts_eqb b0 b'
+  | _, _ => false
+  end
+with stmts_eqb (a b : stmts) {struct a} : bool :=
+  match a, b with
+  | TNil, TNil => true
+  | TCons s r, TCons s' r' => stmt_eqb s s' && stmts_eqb r r'
+  | _, _ => false
+  end.
+
+Definition k1s_bad (cases : list (list sop * stmts)) : list (N * N) :=
+  flat_map (fun ic =>
+    match sexec (fst (snd ic)) ([], [mkF KTop None None TNil]) with
+    | Some ([], [f]) =>
+        match fk f with
+        | KTop => if stmts_eqb (fbody f) (snd (snd ic)) then [] else [(fst ic, 1%N)]
+        | _ => [(fst ic, 3%N)]
+        end
+    | _ => [(fst ic, 2%N)]
+    end) (indexed cases).
